@@ -544,7 +544,7 @@ impl<'a, H: HashAlgorithm> Exec<'a, H> {
     /// is outside the API's contract (nomt does not detect it) and is not attempted.
     fn fork_valid(&self, id: usize) -> bool {
         match self.chain(id) {
-            Ok(ch) => match ch.last() { Some(oldest) => self.overlays[oldest].base == self.model.cur, None => self.overlays[&id].state == self.model.cur },
+            Ok(ch) => match ch.last() { Some(oldest) => crate::model::same_state(&self.overlays[oldest].base, &self.model.cur), None => crate::model::same_state(&self.overlays[&id].state, &self.model.cur) },
             Err(()) => true, // incomplete chains are handled (refusal expected) by run_session
         }
     }
@@ -844,7 +844,7 @@ impl<'a, H: HashAlgorithm> Exec<'a, H> {
                     None => true,
                     Some(p) => self.overlays[&p].status == OvStatus::Committed && self.last_committed_overlay == Some(p),
                 };
-                let node_state_base_matches = self.overlays[id].base == self.model.cur;
+                let node_state_base_matches = crate::model::same_state(&self.overlays[id].base, &self.model.cur);
                 let expect_ok = parent_ok && node_state_base_matches;
                 if expect_ok { let ns = self.overlays[id].state.clone(); self.snap(ns, true); }
                 let res = if *nonblocking {
@@ -930,7 +930,7 @@ impl<'a, H: HashAlgorithm> Exec<'a, H> {
             Step::DropPrepared { id } => { self.prepared.remove(id); }
             Step::CommitPrepared { id, nonblocking } => {
                 let Some((fin, base, new_state, writes)) = self.prepared.remove(id) else { rep!(self).steps_done = i + 1; return Ok(()); };
-                let expect_ok = base == self.model.cur;
+                let expect_ok = crate::model::same_state(&base, &self.model.cur);
                 if expect_ok { self.snap(new_state.clone(), true); }
                 let res = if *nonblocking {
                     match fin.try_commit_nonblocking(self.nomt()) {
